@@ -44,6 +44,7 @@ TRUSTED = ["modelled: tdm/program.py (shift_by, _unroll_program, apply_op, unrol
 # weight eps^2 = 4e-8: predicted means carry noise of ~1e-7..1e-6.  NumPy's global RNG is seeded identically
 # for the two runs, and the comparison tolerance is 2e-5 * max(1, std) (wrong circuits differ by >1e-2).
 TOL = 2e-5
+TAGS = [float(k) for k in range(4096)]
 
 
 # =============================================================================== correspondence
@@ -99,16 +100,14 @@ def crop_ok(sf, spec):
 
 
 def legal_event(spec, mode, ev, cropok=None):
-    """events the harness issues: crop only for single-band programs; a space-unrolled circuit with
-    measurements is only executed with shots=None (samples of space-unrolled runs are a separate, known finding)"""
+    """events the harness issues: crop only for single-band programs without nested loops"""
     ev = dict(ev)
     if ev["ev"] == "run":
         if len(spec["N"]) > 1 or cropok is False:
             ev["crop"] = False
-        if executes_space(mode, ev) and any(T.is_meas(o) for o in spec["ops"]):
-            ev["shots"] = None
-        if T.true_measured_modes(spec, 3) != T.assumed_measured_modes(spec, 3):
-            ev["shots"] = None  # sample arrangement under other shifts is a separate (known) finding
+        if ev.get("crop") and ev["shots"] is not None and not any(T.is_meas(o) and o["regs"][0] == 0 for o in spec["ops"]) \
+                and any(T.is_meas(o) for o in spec["ops"]):
+            ev["crop"] = False  # the engine crops samples_dict[0] only
     return ev
 
 
@@ -165,7 +164,10 @@ def _one_call(sf, prog, ev, xs, runs):
                 with T.capture_engine(sf, rec), T.scripted_homodyne(xs, log):
                     res = eng.run(prog, shots=ev["shots"], space_unroll=ev["space"], crop=ev["crop"])
             nstate = res.state.num_modes if res.state is not None else None
-            out = dict(executed=rec.get("executed"), backendModes=rec.get("backendModes"), nstate=nstate)
+            sd = None
+            if res.samples_dict:
+                sd = [[int(k2), np.array(v).astype(int).tolist()] for k2, v in res.samples_dict.items()]
+            out = dict(executed=rec.get("executed"), backendModes=rec.get("backendModes"), nstate=nstate, samples=sd)
             runs.append(dict(ev=ev, log=log, samples=None if res.samples is None else np.array(res.samples),
                              samples_dict={int(k2): np.array(v) for k2, v in (res.samples_dict or {}).items()}))
         return out
@@ -187,6 +189,7 @@ def history_case(ctx, sf, spec, evs, reqs, pending, xs):
     ctx.count("history:len%d" % min(len(evs), 9), case, nt, sample=case)
     for ev in evs:
         ctx.tally("ev:" + ev["ev"] + (":space" if ev.get("space") else "") + (":crop" if ev.get("crop") else ""))
+    xs = TAGS  # the k-th measurement of a run returns the tag k: sample dictionaries are compared exactly with the model
     steps, runs, prog = real_history(sf, spec, evs, xs)
     if steps and isinstance(steps[-1]["out"], str) and steps[-1]["out"].startswith("raised"):
         ctx.oracle_cases += 1
@@ -207,6 +210,11 @@ def flush_histories(ctx, reqs, pending):
         ctx.corr_cases += 1
         if isinstance(model, dict) and "__error__" in model:
             ctx.disagree("Tdm.history (model error)", case, model, None)
+            continue
+        if isinstance(model, dict) and "order" in model:
+            model.pop("rank", None)
+            if model != steps:
+                ctx.disagree("Tdm.measOrder/measuredModes vs TDMProgram.get_mode_order/measured_modes", case, model, steps)
             continue
         model = [norm_model_step(m) for m in model]
         if model != steps:
@@ -259,6 +267,27 @@ def corr_reshape(ctx, sf):
             got = "raised " + type(e).__name__
         reqs.append(dict(op="tdm.reshape", samples=[[k, raw[k]] for k in sorted(raw)], modes=modes, N=N, T=tb))
         impl.append(("reshape", case, got))
+        # with an explicit mode order: whole-register rotation by r per bin (what integer shifts produce)
+        C, r = sum(N), rng.randint(0, sum(N))
+        raw2, order2 = {}, []
+        for g in range(shots * tb):
+            for b, n in enumerate(N):
+                m = (modes[b] + g * r) % C
+                raw2.setdefault(m, []).append(1000 * (g // tb) + 100 * b + (g % tb) + 7)
+                order2.append(m)
+        sd2 = {k: [np.array([v]) for v in raw2[k]] for k in sorted(raw2)}
+        try:
+            out2 = reshape_samples(sd2, modes, N, tb, mode_order=order2)
+            got2 = [[int(k), np.array(v).astype(int).tolist()] for k, v in out2.items()]
+        except Exception as e:  # noqa: BLE001
+            got2 = "raised " + type(e).__name__
+        reqs.append(dict(op="tdm.reshape", samples=[[k, raw2[k]] for k in sorted(raw2)], modes=modes, N=N, T=tb, order=order2))
+        impl.append(("reshapeWith", dict(case, rot=r), got2))
+        ctx.oracle_cases += 1
+        want2 = [[modes[b], [[tag_of[(sh, b, t)] for t in range(tb)] for sh in range(shots)]] for b in range(len(N))]
+        if got2 != want2:
+            ctx.fail("reshape-placement", f"reshape_samples with the true mode order misplaces samples for N={N} modes={modes} "
+                     f"shots={shots} timebins={tb} rotation={r}", dict(kind="reshape", **case, offs=offs, rot=r))
         # property-level: entry (shot, band, bin)
         ctx.oracle_cases += 1
         bad = None
@@ -399,11 +428,10 @@ def oracle_loop(ctx, sf, spec, shots, xs):
                      f"unrolled program but {b[0]:.6g}/{b[2]:.6g}/{b[3]:.6g} in the explicit loop", rp)
             return
     # (2) samples at (shot, band, bin)
-    nondefault = T.true_measured_modes(spec, shots) != T.assumed_measured_modes(spec, shots)
-    sig = "samples-placement:non-default-shift" if nondefault else "samples-placement"
+    sig = "samples-placement"
     Tn, B = spec["T"], len(spec["N"])
     if err is not None:
-        ctx.fail(sig if nondefault else "samples-error", f"run(shots={shots}) of N={spec['N']} shift={spec['shift']} "
+        ctx.fail("samples-error", f"run(shots={shots}) of N={spec['N']} shift={spec['shift']} "
                  f"raises {type(err).__name__} while arranging the samples", rp)
         return
     samples = np.array(res.samples)
@@ -456,26 +484,62 @@ def oracle_space(ctx, sf, spec, crop):
                  f"{snap['refs']} / {len(snap['circuit'])} commands", rp)
 
 
-def oracle_space_samples(ctx, sf, spec, shots, xs):
-    """samples of a space-unrolled run (known finding: reshape_samples assumes the shift-unrolled order)"""
-    ctx.count("space-samples", dict(spec=spec, shots=shots), False)
+def oracle_space_samples(ctx, sf, spec, shots, xs, crop=False):
+    """samples of a space-unrolled run sit at (shot, band, bin) too"""
+    case = dict(spec=spec, shots=shots, crop=crop)
+    ctx.count("space-samples", case, spec["T"] >= 2 and shots >= 1, sample=case)
     ctx.oracle_cases += 1
-    rp = dict(kind="space_samples", spec=spec, shots=shots, xs=list(xs))
+    rp = dict(kind="space_samples", spec=spec, shots=shots, xs=list(xs), crop=crop)
     prog = T.build(sf, spec)
     log = []
     with warnings.catch_warnings():
         warnings.simplefilter("ignore")
         with T.scripted_homodyne(xs, log):
             try:
-                res = sf.Engine("gaussian").run(prog, shots=shots, space_unroll=True)
-            except IndexError:
-                ctx.fail("space-unrolled-samples", "run(space_unroll=True) with measurements and shots raises IndexError in "
-                         "reshape_samples (it assumes the mode order of the shift-unrolled circuit)", rp)
+                res = sf.Engine("gaussian").run(prog, shots=shots, space_unroll=True, crop=crop)
+            except Exception as e:  # noqa: BLE001
+                ctx.fail("space-unrolled-samples", f"run(space_unroll=True, shots={shots}) of N={spec['N']} timebins={spec['T']} "
+                         f"raises {type(e).__name__}: {str(e)[:100]}", rp)
                 return
+        lo = int(prog.get_crop_value()) if crop else 0
     samples = np.array(res.samples)
-    want = np.array([xs[k % len(xs)] for k in range(shots * spec["T"])]).reshape(shots, 1, spec["T"])
-    if samples.shape != want.shape or not np.array_equal(samples, want):
-        ctx.fail("space-unrolled-samples", "samples of the space-unrolled run are not arranged as (shot, band, bin)", rp)
+    Tn, B = spec["T"], len(spec["N"])
+    info = [(g, b) for g, b, _ in T.true_measured_modes(spec, shots)]
+    want = np.zeros((shots, B, Tn))
+    for k, (g, b) in enumerate(info):
+        want[g // Tn, b, g % Tn] = xs[k % len(xs)]
+    want = want[:, :, lo:]
+    if len(log) != len(info) or samples.shape != want.shape or not np.array_equal(samples, want):
+        ctx.fail("space-unrolled-samples", f"N={spec['N']} timebins={Tn} shots={shots} crop={crop}: samples of the space-unrolled run "
+                 f"are not arranged as (shot, band, bin) ({len(log)} measurements, shape {samples.shape}, expected {want.shape})", rp)
+
+
+def oracle_select(ctx, sf, spec, shots, kw):
+    """a post-selected measurement in the loop body: every bin is post-selected, whatever engine options are given"""
+    spec = copy.deepcopy(spec)
+    sel = 0.125
+    for o in spec["ops"]:
+        if T.is_meas(o):
+            o["s"] = sel
+    if kw.get("crop") and not crop_ok(sf, spec):
+        kw = dict(kw, crop=False)
+    case = dict(spec=spec, shots=1, kw=kw)
+    ctx.count("select+options", case, spec["T"] >= 2, sample=case)
+    ctx.oracle_cases += 1
+    rp = dict(kind="select", spec=spec, shots=1, kw=kw)
+    with warnings.catch_warnings():
+        warnings.simplefilter("ignore")
+        try:
+            res = sf.Engine("gaussian").run(T.build(sf, spec), shots=1, **kw)
+        except Exception as e:  # noqa: BLE001
+            ctx.fail("select-with-options", f"a TDM program with MeasureHomodyne(select=...) run with {kw} raises "
+                     f"{type(e).__name__}: {str(e)[:100]}", rp)
+            return
+    smp = np.array(res.samples)
+    if smp.size == 0 and kw.get("crop"):
+        return
+    if smp.size == 0 or not np.allclose(smp, sel, atol=1e-12):
+        ctx.fail("select-lost", f"post-selected outcomes are not returned for every time bin (options {kw})", rp)
 
 
 def fresh_circuit(sf, spec, how, shots, cache):
@@ -534,7 +598,7 @@ def oracle_history(ctx, sf, spec, evs, steps, runs, xs, cache=None):
         elif k in ("unroll", "space_unroll") and step["out"] == "ok":
             how = "shift" if mode == "shift" else "space"
             want = fresh_circuit(sf, spec, how, st["shots"], cache)
-            nreg = C if how == "shift" else max(C, spec["T"] + C - 1)
+            nreg = C if how == "shift" else max(C, st["shots"] * spec["T"] + C - 1)
             if st["shots"] != ev["shots"] or st["circuit"] != want or st["refs"] != [[i, True] for i in range(nreg)] or st["init"] != nreg:
                 ctx.fail("unroll-depends-on-history", f"after {hist}: the {how}-unrolled circuit/register for shots={ev['shots']} "
                          f"differs from what a fresh program gives (register {st['refs']}, shots recorded {st['shots']})", rp)
@@ -557,7 +621,7 @@ def oracle_history(ctx, sf, spec, evs, steps, runs, xs, cache=None):
                          f"program unrolled for {sh} shot(s)", rp)
                 return
             has_meas = any(T.is_meas(o) for o in spec["ops"])
-            if ev["shots"] is not None and has_meas and not (ev["space"] or was == "space"):
+            if ev["shots"] is not None and has_meas:
                 Tn, B = spec["T"], len(spec["N"])
                 lo = 0
                 if ev["crop"]:
@@ -567,11 +631,10 @@ def oracle_history(ctx, sf, spec, evs, steps, runs, xs, cache=None):
                 for kk, (g, b) in enumerate(info):
                     want_s[g // Tn, b, g % Tn] = xs[kk % len(xs)]
                 want_s = want_s[:, :, lo:]
-                if T.true_measured_modes(spec, sh) == T.assumed_measured_modes(spec, sh):
-                    if r["samples"] is None or r["samples"].shape != want_s.shape or not np.array_equal(r["samples"], want_s):
-                        ctx.fail("samples-placement", f"after {hist}: samples are not arranged as (shot, band, bin) "
-                                 f"(shape {None if r['samples'] is None else r['samples'].shape}, expected {want_s.shape})", rp)
-                        return
+                if r["samples"] is None or r["samples"].shape != want_s.shape or not np.array_equal(r["samples"], want_s):
+                    ctx.fail("samples-placement", f"after {hist}: samples are not arranged as (shot, band, bin) "
+                             f"(shape {None if r['samples'] is None else r['samples'].shape}, expected {want_s.shape})", rp)
+                    return
         prev = st if not (k == "unroll" and step["out"] == "ValueError") else prev
         if prev is None:
             prev = st
@@ -592,7 +655,9 @@ def run_item(ctx, sf, item, reqs, pending):
     elif k == "space":
         oracle_space(ctx, sf, item["spec"], item.get("crop", False))
     elif k == "space_samples":
-        oracle_space_samples(ctx, sf, item["spec"], item["shots"], item.get("xs") or [0.3, -0.2, 0.5])
+        oracle_space_samples(ctx, sf, item["spec"], item["shots"], item.get("xs") or [0.3, -0.2, 0.5], item.get("crop", False))
+    elif k == "select":
+        oracle_select(ctx, sf, item["spec"], item["shots"], item["kw"])
     elif k == "unroll_flags":
         unroll_case(ctx, sf, item["spec"], item["shots"], item["space"], reqs, pending)
 
@@ -605,6 +670,13 @@ def unroll_case(ctx, sf, spec, shots, space, reqs, pending):
     steps, runs, prog = real_history(sf, spec, evs, [0.0])
     reqs.append(dict(op="tdm.history", evs=evs, **T.model_cfg(spec)))
     pending.append((case, steps))
+    # TDMProgram.get_mode_order / measured_modes on the unrolled program vs the model
+    p2 = T.build(sf, spec)
+    (p2.space_unroll if space else p2.unroll)(shots=shots)
+    mcirc = [dict(c, meas=c["cls"].startswith("Measure")) for c in T.canon_circ(p2.circuit)]
+    reqs.append(dict(op="tdm.measOrder", rolled=T.model_cfg(spec)["rolled"], circ=mcirc))
+    pending.append((dict(spec=spec, shots=shots, space=space, what="get_mode_order"),
+                    dict(order=[int(x) for x in p2.get_mode_order()], modes=[int(x) for x in p2.measured_modes])))
     # property-level: flags and arguments of every unrolled command are those of the rolled command at that bin
     ctx.oracle_cases += 1
     circ = steps[0]["st"]["circuit"]
@@ -692,8 +764,14 @@ def run(ctx, sf):
                 z = rng.randint(0, len(p))
                 p[:z] = [0] * z
         oracle_space(ctx, sf, spec, crop=rng.random() < 0.4 and crop_ok(sf, spec))
-    # ---- known finding: samples of a space-unrolled run
-    oracle_space_samples(ctx, sf, dict(small[0], T=3, params=[[1, 2, 3], [0, 1, 2]]), 1, xs)
+    # ---- samples of space-unrolled runs (all shot counts), post-selection together with engine options
+    for i in range(ctx.n(40, 400)):
+        spec = T.gen_spec(rng, False, single_band=rng.random() < 0.7, shift="default" if rng.random() < 0.7 else None)
+        crop = rng.random() < 0.3 and crop_ok(sf, spec) and any(T.is_meas(o) and o["regs"][0] == 0 for o in spec["ops"])
+        oracle_space_samples(ctx, sf, spec, rng.choice([1, 2, 3]), xs[i % 29:] + xs[:i % 29], crop)
+    for _ in range(ctx.n(10, 80)):
+        oracle_select(ctx, sf, T.gen_spec(rng, False, single_band=True, shift="default"), rng.choice([1, 2]),
+                      rng.choice([dict(crop=True), dict(space_unroll=True), dict(crop=False, space_unroll=False), dict()]))
 
 
 def search(ctx, sf):
@@ -720,8 +798,15 @@ def _replay_reshape(ctx, sf, rp):
         for b, n in enumerate(N):
             raw.setdefault(starts[b] + (offs[b] + g) % n, []).append(1000 * (g // tb) + 100 * b + g % tb + 7)
             tag_of[(g // tb, b, g % tb)] = 1000 * (g // tb) + 100 * b + g % tb + 7
+    order = None
+    if "rot" in rp:
+        raw, order, C = {}, [], sum(N)
+        for g in range(shots * tb):
+            for b, n in enumerate(N):
+                raw.setdefault((modes[b] + g * rp["rot"]) % C, []).append(tag_of[(g // tb, b, g % tb)])
+                order.append((modes[b] + g * rp["rot"]) % C)
     try:
-        out = reshape_samples({k: [np.array([v]) for v in raw[k]] for k in sorted(raw)}, modes, N, tb)
+        out = reshape_samples({k: [np.array([v]) for v in raw[k]] for k in sorted(raw)}, modes, N, tb, mode_order=order)
         return any(out[modes[b]][s][t] != tag for (s, b, t), tag in tag_of.items())
     except Exception:  # noqa: BLE001
         return True
